@@ -6,7 +6,8 @@
 From PCD Require Import Base.PyBase Base.Cfg Model.Data Model.Consts Model.Blocks Model.CodeData Model.Json
   Model.Cli Model.LineTable Spec.Lnotab Spec.Dis Model.ViewSer Proofs.C02_Statements Proofs.C01_Statements
   Proofs.C03b_Statements Proofs.C03c_Statements Proofs.C06_Statements Proofs.C07_Statements Proofs.NormalFormWf
-  Proofs.NormalizePreserves Proofs.RoundTrip Proofs.CliProofs.
+  Proofs.NormalizePreserves Proofs.RoundTrip Proofs.CliProofs Proofs.SrcCliTie.
+From PCD Require Gen.SrcCli.
 
 Definition exactly_one (a b c d : bool) : Prop :=
   (a = true /\ b = false /\ c = false /\ d = false) \/ (a = false /\ b = true /\ c = false /\ d = false) \/
@@ -51,3 +52,30 @@ Print Assumptions C16_dis_after_without_normalize_is_dis_of_the_same_code.
 Theorem C16_dis_after_shows_the_same_instructions : S_C05_view.
 Proof. exact C05_view. Qed.
 Print Assumptions C16_dis_after_shows_the_same_instructions.
+
+(* ---- tie to the source by proof.  Gen/SrcCli.v is re-translated from code_data/_cli.py:main on every run: the test that
+   decides whether the sources given are acceptable, and the sections main prints, in order, with the value each shows. *)
+
+(* the source counts the program sources by presence (a source given with an empty value counts), as the model does *)
+Theorem C16_usage_rule_is_the_source : forall file cmd mod_ eval_ : bool * bool,
+  SrcCli.accepts file cmd mod_ eval_ = cli_accepts (fst file) (fst cmd) (fst mod_) (fst eval_).
+Proof. exact accepts_tie. Qed.
+Print Assumptions C16_usage_rule_is_the_source.
+
+(* whatever output flags are given, every section of main's output that shows data - the printed value, the --json section,
+   the code object of --dis-after - shows the same value: normalize(decode) by default, decode with --no-normalize *)
+Theorem C16_every_section_shows_the_printed_value : forall (D : Type) (normalize : D -> D)
+    show_dis show_source show_dis_after no_normalize json has_source a v d,
+  In a (SrcCli.actions show_dis show_source show_dis_after no_normalize json has_source) ->
+  action_value a = Some v -> dval_denote normalize v d = cli_data normalize no_normalize d.
+Proof. exact @actions_show_cli_data. Qed.
+Print Assumptions C16_every_section_shows_the_printed_value.
+
+(* the sections and their order are the model's; the data is printed exactly once whatever the flags *)
+Theorem C16_sections_are_the_source : forall show_dis show_source show_dis_after no_normalize json has_source,
+  SrcCli.actions show_dis show_source show_dis_after no_normalize json has_source
+    = cli_actions show_dis show_source show_dis_after no_normalize json has_source
+  /\ zlen (filter (fun a => match a with APrint _ => true | _ => false end)
+            (SrcCli.actions show_dis show_source show_dis_after no_normalize json has_source)) = 1%Z.
+Proof. intros; split; [apply actions_tie | apply actions_always_print]. Qed.
+Print Assumptions C16_sections_are_the_source.
